@@ -209,7 +209,10 @@ class HttpWorld:
                 resp = self.origin(rec, flow.request)
                 if asyncio.iscoroutine(resp):
                     resp = await resp
-                flow.response = resp
+                if flow.response is None:
+                    flow.response = resp
+                else:
+                    rec.ev("preempted", loop.time())     # an answer was put in while the origin was thinking
                 rec.ev("origin", loop.time(), status=resp.status_code)
             # --- responseheaders + response hooks (also run for responses injected at request time)
             self.mitm_addon.responseheaders(flow)
